@@ -464,7 +464,7 @@ pub fn build_event(w: &mut World, toks: &[String]) -> Built2 {
                 }
                 _ => EngineEvent::Market(MarketStreamEvent::Item(MarketEvent {
                     time_exchange: time,
-                    time_received: time,
+                    time_received: time + chrono::Duration::seconds(100),
                     exchange: EXCHANGES[ex_label],
                     instrument: idx,
                     kind: DataKind::Trade(PublicTrade {
